@@ -306,7 +306,11 @@ def c03(run):
                        "before and after it; Trace_Seq demands After = SeqSpec(Before, call), unchanged frame, errors "
                        "exactly for invalid arguments, and committed view = last transaction view; non-trivial = scenario "
                        "containing at least one rejected (invalid) call")
-    gen_doc(run, [("1, 2", 5, True, 0 if run.tier == "thorough" else 30)])
+    if run.tier == "thorough":
+        # (exhaustive at depth 5 with the list does not finish in 15 minutes: depth 4 exhaustively, deeper by simulation)
+        gen_doc(run, [("1, 2", 4, True, 0), ("1, 2", 6, True, 300), ("1, 2, 3", 6, True, 150)])
+    else:
+        gen_doc(run, [("1, 2", 5, True, 30)])
     interp_trace(run, ["C03"], "seq", sizes(run, 200, 4000), has_failed_call, spec="Trace_Seq.tla")
     interp_trace(run, ["C03"], "docinv", sizes(run, 100, 2000), has_failed_call, spec="Trace_Seq.tla")
     interp_trace(run, ["C03"], "conflict", sizes(run, 100, 2000), has_conflict, spec="Trace_Seq.tla")
@@ -1298,7 +1302,7 @@ def c36(run):
         run.add_states(r)
         behs = sorted(set(behs))
         if run.tier == "quick":
-            behs = behs[:3000]
+            behs = behs[::max(1, len(behs) // 700)][:700]
         bp = os.path.join(run.work, f"beh-capi-{vi}.ndjson")
         with open(bp, "w") as f:
             f.write("\n".join(behs) + "\n")
